@@ -200,12 +200,16 @@ class AutoRestartTrick(Trick):
         self._retired_watchers: list[ProcessWatcher] = []
 
     def start(self) -> None:
-        if self.debounce_interval_seconds:
-            self.event_debouncer = EventDebouncer(
-                debounce_interval_seconds=self.debounce_interval_seconds,
-                events_callback=lambda events: self._restart_process(),
-            )
-            self.event_debouncer.start()
+        # stop() sets the flag under the same lock: either it finds the debouncer started, or we do not create it.
+        with self._stopping_lock:
+            if self._is_trick_stopping:
+                return
+            if self.debounce_interval_seconds:
+                self.event_debouncer = EventDebouncer(
+                    debounce_interval_seconds=self.debounce_interval_seconds,
+                    events_callback=lambda events: self._restart_process(),
+                )
+                self.event_debouncer.start()
         # The observer may be running already: an event handled before or while we get here
         # has started the process, and a second one must not be started next to it.
         with self._restart_lock:
